@@ -48,27 +48,46 @@ func rulePsyncWire(w *core.World, r *core.Report) {
 	f := fn(w, r, "(*pkg/redis.StandaloneRedis).SendPSync")
 	if f != nil {
 		off := ssa.Value(f.Params[2])
-		// the value formatted and sent
-		var sent ssa.Value
-		for _, s := range core.SitesNamed(f, false, "strconv.FormatInt") {
-			sent = s.Args()[0]
-		}
-		okSent := false
-		if ph, ok := sent.(*ssa.Phi); ok && len(ph.Edges) == 2 {
-			plus, raw := false, false
-			for i, e := range ph.Edges {
-				if b, ok := e.(*ssa.BinOp); ok && b.Op == token.ADD && b.X == off && isConstInt(1)(b.Y) {
-					// under offset >= 0
-					for _, fct := range core.FactsAt(ph.Block().Preds[i]) {
-						if c, ok := core.AsCmp(fct.Cond, fct.Val); ok && c.Op == token.GEQ && c.X == off && isConstInt(0)(c.Y) {
-							plus = true
-						}
-					}
-				} else if e == off {
-					raw = true
+		// the value formatted and sent, per path: offset+1 under offset >= 0, the raw value otherwise
+		okSent := true
+		nPlus, nRaw := 0, 0
+		sentOn := func(p *core.Path) ssa.Value {
+			var sent ssa.Value
+			for _, s := range pathSites(p) {
+				if s.Name == "strconv.FormatInt" && len(s.Args()) == 2 {
+					sent = p.Resolve(s.Args()[0])
 				}
 			}
-			okSent = plus && raw
+			if sent == nil {
+				return nil
+			}
+			nonNeg, neg := false, false
+			for _, fct := range p.Conds {
+				c, ok := core.FactCmp(fct)
+				if !ok || p.Resolve(c.X) != off || !isConstInt(0)(c.Y) {
+					continue
+				}
+				switch c.Op {
+				case token.GEQ:
+					nonNeg = true
+				case token.LSS:
+					neg = true
+				}
+			}
+			if b, isB := sent.(*ssa.BinOp); isB && b.Op == token.ADD && p.Resolve(b.X) == off && isConstInt(1)(b.Y) {
+				if !nonNeg {
+					okSent = false
+				}
+				nPlus++
+			} else if sent == off {
+				if !neg {
+					okSent = false
+				}
+				nRaw++
+			} else {
+				okSent = false
+			}
+			return sent
 		}
 		bad := ""
 		var badPos token.Pos
@@ -85,13 +104,18 @@ func rulePsyncWire(w *core.World, r *core.Report) {
 			}
 			waiterNil := pathNil(p, ret.Results[2])
 			ro := p.Resolve(ret.Results[1])
+			sent := sentOn(p)
+			if sent == nil {
+				bad, badPos = "a result is reported on a path that sent no PSYNC", ret.Pos()
+				return
+			}
 			if waiterNil {
 				nCont++
 				if !isReplyWord("continue")(p) {
 					bad, badPos = "a partial resynchronisation is reported (nil snapshot waiter, nil error) on a path where the reply was not CONTINUE", ret.Pos()
 				}
 				b, ok := ro.(*ssa.BinOp)
-				if !ok || b.Op != token.SUB || !isConstInt(1)(b.Y) || p.Resolve(b.X) != p.Resolve(sent) {
+				if !ok || b.Op != token.SUB || !isConstInt(1)(b.Y) || p.Resolve(b.X) != sent {
 					bad, badPos = "on CONTINUE the reported offset must be the offset sent minus 1 (found "+ro.String()+")", ret.Pos()
 				}
 			} else {
@@ -105,6 +129,7 @@ func rulePsyncWire(w *core.World, r *core.Report) {
 			}
 		})
 		r.Rule("R06.1", "", 1)
+		okSent = okSent && nPlus > 0 && nRaw > 0
 		r.Check(okSent && bad == "" && nCont > 0 && nFull > 0, "SendPSync/offset-convention", badPos, "%s (sent offset+1 under offset>=0: %v)", bad, okSent)
 		r.Rule("R06.2", "", 2)
 		r.Check(bad == "" && nCont > 0, "SendPSync/continue-only-when-granted", badPos, "%s", bad)
@@ -588,7 +613,7 @@ func ruleCacheAdoption(w *core.World, r *core.Report) {
 				n++
 				guarded := false
 				for _, fct := range core.FactsAt(ret.Block()) {
-					c, okC := core.AsCmp(fct.Cond, fct.Val)
+					c, okC := core.FactCmp(fct)
 					if !okC || c.Op != token.EQL {
 						continue
 					}
